@@ -58,6 +58,7 @@ fn locations_case(unit: u64, k: u64, ctx: &mut Ctx) {
     cfg.statements = rng.range(3, 7);
     cfg.non_ascii = rng.chance(1, 2);
     cfg.crlf = rng.chance(1, 4);
+    cfg.mixed_eol = !cfg.crlf && rng.chance(1, 3);
     cfg.dead_use = rng.chance(1, 2);
     let mut p = gprog::generate(&mut rng, cfg);
     // half of the programs carry a seeded fault so that diagnostics exist, also in included files
@@ -101,6 +102,9 @@ fn locations_case(unit: u64, k: u64, ctx: &mut Ctx) {
     }
     if w.files.iter().any(|f| f.1.contains("\r\n")) {
         ctx.feature("crlf");
+    }
+    if w.files.iter().any(|f| f.1.contains("\r\n\n") || f.1.contains("\n\r\n")) && w.files.iter().any(|f| f.1.replace("\r\n", "").contains('\n')) {
+        ctx.feature("mixed_line_terminators");
     }
     // reference: direct ide analysis
     let l = ws::load(&w);
@@ -300,6 +304,21 @@ struct Action {
     faulty: bool,
     /// send exactly the text the editor sent last for this document (a re-opened tab, a no-op change)
     resend: bool,
+    /// send the previous text with one blank in front of the faulty parent turned into a line break (or back):
+    /// every byte offset stays, every line/column behind it moves
+    reflow: bool,
+    /// the tab is closed and opened again: didClose + didOpen, and the editor restarts the version numbering
+    reopen: bool,
+    /// replay: the recorded text, verbatim
+    fixed_text: Option<String>,
+}
+
+fn reflowed(prev: &str) -> String {
+    if prev.contains("\n: U_") {
+        prev.replacen("\n: U_", " : U_", 1)
+    } else {
+        prev.replacen(" : U_", "\n: U_", 1)
+    }
 }
 
 fn run_session(mode: LMode, docs: &[&str], actions: &[Action], check_every_step: bool, ctx: &mut Ctx, exhaustive: bool) {
@@ -313,6 +332,8 @@ fn run_session(mode: LMode, docs: &[&str], actions: &[Action], check_every_step:
     }
     let mut buffers: Vec<Option<String>> = vec![None; n];
     let mut versions = vec![0usize; n];
+    // the protocol's version numbers, restarted when a document is opened again
+    let mut lsp_version = vec![0i64; n];
     let mut root: Option<usize> = None;
     let mut history = Vec::new();
     let mut viol: Vec<(String, String)> = Vec::new();
@@ -321,23 +342,37 @@ fn run_session(mode: LMode, docs: &[&str], actions: &[Action], check_every_step:
     let mut watchdog = false;
     for (step, act) in actions.iter().enumerate() {
         versions[act.doc] += 1;
-        let text = match (&buffers[act.doc], act.resend) {
-            (Some(prev), true) => prev.clone(),
+        let text = match (&buffers[act.doc], act.resend, act.reflow) {
+            _ if act.fixed_text.is_some() => act.fixed_text.clone().unwrap(),
+            (Some(prev), true, _) => prev.clone(),
+            (Some(prev), _, true) => reflowed(prev),
             _ => doc_text(act.doc, docs, "ed", versions[act.doc] * 10 + act.doc, act.include_next, act.faulty),
         };
         if act.resend && buffers[act.doc].is_some() {
             ctx.feature("action:resend-same-text");
         }
+        if act.reflow && buffers[act.doc].as_ref().map(|p| *p != text).unwrap_or(false) {
+            ctx.feature("action:reflow-same-byte-offsets");
+        }
         if mode == LMode::Converge {
             disk[act.doc] = text.clone();
             s.write_disk(docs[act.doc], &text);
         }
-        let opened = buffers[act.doc].is_some();
-        history.push(json!({"action": if opened { "didChange" } else { "didOpen" }, "doc": docs[act.doc], "text": text}));
+        let was_open = buffers[act.doc].is_some();
+        let reopen = was_open && act.reopen;
+        let opened = was_open && !reopen;
+        history.push(json!({"action": if opened { "didChange" } else if reopen { "didClose+didOpen" } else { "didOpen" }, "doc": docs[act.doc], "text": text}));
         ctx.current_json(&case_json(&history));
         if opened {
-            s.did_change(docs[act.doc], versions[act.doc] as i64 + 1, &text);
+            lsp_version[act.doc] += 1;
+            s.did_change(docs[act.doc], lsp_version[act.doc], &text);
         } else {
+            if reopen {
+                ctx.feature("action:reopen-restarts-versions");
+                let uri = s.uri(docs[act.doc]);
+                s.notify("textDocument/didClose", json!({"textDocument": {"uri": uri}}));
+            }
+            lsp_version[act.doc] = 1;
             s.did_open(docs[act.doc], &text);
         }
         buffers[act.doc] = Some(text);
@@ -483,16 +518,27 @@ fn action_pool(n_docs: usize) -> Vec<Action> {
     for doc in 0..n_docs {
         for include_next in [false, true] {
             for faulty in [false, true] {
-                v.push(Action { doc, include_next, faulty, resend: false });
+                v.push(Action { doc, include_next, faulty, resend: false, reflow: false, reopen: false, fixed_text: None });
             }
         }
-        v.push(Action { doc, include_next: false, faulty: true, resend: true });
+        v.push(Action { doc, include_next: false, faulty: true, resend: true, reflow: false, reopen: false, fixed_text: None });
+    }
+    v
+}
+/// the pool of the random sessions: the exhaustive pool plus byte-offset-preserving reflows and re-opened tabs
+fn action_pool_wide(n_docs: usize) -> Vec<Action> {
+    let mut v = action_pool(n_docs);
+    for doc in 0..n_docs {
+        v.push(Action { doc, include_next: false, faulty: true, resend: false, reflow: true, reopen: false, fixed_text: None });
+        v.push(Action { doc, include_next: doc + 1 < n_docs, faulty: true, resend: false, reflow: false, reopen: true, fixed_text: None });
     }
     v
 }
 
 const DOCS2: [&str; 2] = ["/ws/a.td", "/ws/b.td"];
 const DOCS3: [&str; 3] = ["/ws/a.td", "/ws/b.td", "/ws/c.td"];
+/// names that a file: URI has to percent-encode (blank, '#', non-ASCII, '%', brackets)
+const DOCS3_ODD: [&str; 3] = ["/ws/my root.td", "/ws/inc #1 é.td", "/ws/100%[x].td"];
 
 impl Check for LspCheck {
     fn id(&self) -> &'static str {
@@ -555,7 +601,7 @@ impl Check for LspCheck {
                     }
                 }
                 // random longer histories over three documents (chain a -> b -> c)
-                let pool3 = action_pool(3);
+                let pool3 = action_pool_wide(3);
                 let mut rng = Rng::derive(ctx.seed, 0x1100 + mode as u64, unit);
                 for _ in 0..ctx.tier.pick(4, 20) {
                     if ctx.features.get("watchdog").copied().unwrap_or(0) > 0 {
@@ -563,7 +609,11 @@ impl Check for LspCheck {
                     }
                     let len = rng.range(4, 8);
                     let acts: Vec<Action> = (0..len).map(|_| pool3[rng.below(pool3.len())].clone()).collect();
-                    run_session(mode, &DOCS3, &acts, rng.chance(1, 2), ctx, false);
+                    let odd = rng.chance(1, 2);
+                    if odd {
+                        ctx.feature("sessions_with_percent_encoded_names");
+                    }
+                    run_session(mode, if odd { &DOCS3_ODD } else { &DOCS3 }, &acts, rng.chance(1, 2), ctx, false);
                 }
             }
         }
@@ -580,7 +630,7 @@ impl Check for LspCheck {
                         .filter_map(|h| {
                             let d = docs.iter().position(|x| Some(x.as_str()) == h["doc"].as_str())?;
                             let t = h["text"].as_str()?;
-                            Some(Action { doc: d, include_next: t.contains("include "), faulty: t.contains(" : U_"), resend: false })
+                            Some(Action { doc: d, include_next: t.contains("include "), faulty: t.contains(": U_"), resend: false, reflow: false, reopen: h["action"].as_str() == Some("didClose+didOpen"), fixed_text: Some(t.to_string()) })
                         })
                         .collect()
                 })
@@ -592,8 +642,8 @@ impl Check for LspCheck {
     }
     fn rule(&self) -> String {
         match self.mode {
-            LMode::Locations => "generated multi-file workspaces (G-prog: root + 1-2 included files with different line structure, half with non-ASCII text, a quarter CRLF, half with a dead use, half with one seeded semantic fault) written to a per-session directory; the real server is driven over JSON-RPC in process (didOpen of the root, logical quiescence through hook counters + barrier requests). For up to 60 (thorough 200) identifier positions (uses and declarations, in every file): textDocument/definition and textDocument/references; for every file: documentSymbol (range and selectionRange of every node), foldingRange (lines), documentLink (range + target URI), inlayHint (positions); publishDiagnostics per URI. Each answer must equal the ide-level result for the same texts with every (file, byte range) converted by refpos USING THE TEXT OF THE FILE THE RANGE BELONGS TO. non-trivial = every workspace; distinct by digest".into(),
-            LMode::Converge => "sessions over documents a.td (-> b.td (-> c.td)); every text version carries uniquely named classes and, if faulty, a uniquely named undefined parent, and includes the next document or not; disk is rewritten with the same text before each message (so C12 cannot interfere). EXHAUSTIVE: all histories of length <= 3 (thorough 4) over the 10-action pool of two documents (8 new texts - the second document may include the first one back, an include cycle - and a resend of the unchanged text per document), each run twice: checked at every quiescent prefix, and sent as a burst and checked at the end. RANDOM: histories of 4-8 actions over three documents. At each quiescent point (all snapshot tasks ended by hook counters, then barrier requests): for every file of the final workspace the last published diagnostics equal those of a fresh analysis of the reference session state (refpos-converted); every URI ever published that is not in the final workspace has an empty last publication; versions per URI never decrease (checked on the arrival order of the notification stream). non-trivial = every session; distinct by action sequence".into(),
+            LMode::Locations => "generated multi-file workspaces (G-prog: root + 1-2 included files with different line structure, half with non-ASCII text, a quarter CRLF, a quarter with LF and CRLF mixed line by line (including empty lines, so CRLF is directly followed by LF), half with a dead use, half with one seeded semantic fault) written to a per-session directory; the real server is driven over JSON-RPC in process (didOpen of the root, logical quiescence through hook counters + barrier requests). For up to 60 (thorough 200) identifier positions (uses and declarations, in every file): textDocument/definition and textDocument/references; for every file: documentSymbol (range and selectionRange of every node), foldingRange (lines), documentLink (range + target URI), inlayHint (positions); publishDiagnostics per URI. Each answer must equal the ide-level result for the same texts with every (file, byte range) converted by refpos USING THE TEXT OF THE FILE THE RANGE BELONGS TO. non-trivial = every workspace; distinct by digest".into(),
+            LMode::Converge => "sessions over documents a.td (-> b.td (-> c.td)); every text version carries uniquely named classes and, if faulty, a uniquely named undefined parent, and includes the next document or not; disk is rewritten with the same text before each message (so C12 cannot interfere). EXHAUSTIVE: all histories of length <= 3 (thorough 4) over the 10-action pool of two documents (8 new texts - the second document may include the first one back, an include cycle - and a resend of the unchanged text per document), each run twice: checked at every quiescent prefix, and sent as a burst and checked at the end. RANDOM: histories of 4-8 actions over three documents (half of the sessions with file names a file: URI must percent-encode: blank, '#', '%', brackets, non-ASCII), drawn from the same pool plus a 'reflow' (the previous text with one blank turned into a line break: all byte offsets stay, line/column of the diagnostic moves) and a 're-opened tab' (didClose + didOpen, protocol version numbers restart at 1). At each quiescent point (all snapshot tasks ended by hook counters, then barrier requests): for every file of the final workspace the last published diagnostics equal those of a fresh analysis of the reference session state (refpos-converted); every URI ever published that is not in the final workspace has an empty last publication; versions per URI never decrease (checked on the arrival order of the notification stream). non-trivial = every session; distinct by action sequence".into(),
             LMode::Buffers => "same session space as C11, but the disk holds texts the editor never sends (faulty, including the next document, marked _disk_) while the editor sends texts marked _ed_: reference session = disk overlaid by open buffers, root = last touched document. At each quiescent point the undefined-class markers named by the last published diagnostics of workspace files must be exactly those of the reference session, and documentSymbol of every workspace document must list exactly the classes its current reference text declares (an open document reached only through an include must show its editor text; a never-opened one its disk text). non-trivial = every session".into(),
         }
     }
@@ -601,9 +651,9 @@ impl Check for LspCheck {
         match self.mode {
             LMode::Locations => {
                 let n = tier.pick(300, 8000);
-                vec![("workspaces", n), ("definition_cross_file", n), ("definition_same_file", n), ("references_requests", n * 10), ("non_ascii", n / 4), ("crlf", n / 10), ("diagnostics_in_included_file", n / 20), ("documentLink_nonempty", n / 2), ("inlayHint_nonempty", n / 2)]
+                vec![("workspaces", n), ("definition_cross_file", n), ("definition_same_file", n), ("references_requests", n * 10), ("non_ascii", n / 4), ("crlf", n / 10), ("mixed_line_terminators", n / 10), ("diagnostics_in_included_file", n / 20), ("documentLink_nonempty", n / 2), ("inlayHint_nonempty", n / 2)]
             }
-            _ => vec![("exhaustive_sessions", tier.pick(400, 2500)), ("random_sessions", tier.pick(150, 8000)), ("sessions_burst", 100), ("quiescent_points", tier.pick(1000, 20_000)), ("action:with-include", 500), ("action:resend-same-text", 200)],
+            _ => vec![("exhaustive_sessions", tier.pick(400, 2500)), ("random_sessions", tier.pick(150, 8000)), ("sessions_burst", 100), ("quiescent_points", tier.pick(1000, 20_000)), ("action:with-include", 500), ("action:resend-same-text", 200), ("action:reflow-same-byte-offsets", tier.pick(25, 500)), ("action:reopen-restarts-versions", tier.pick(25, 500)), ("sessions_with_percent_encoded_names", tier.pick(60, 1500))],
         }
     }
     fn exhaustive(&self, tier: Tier) -> Option<String> {
